@@ -30,7 +30,7 @@ def main():
 
     th = runcards.TheoryCard.from_dict(yaml.safe_load(pathlib.Path(thf).read_text()))
     op = runcards.OperatorCard.from_dict(yaml.safe_load(pathlib.Path(opf).read_text()))
-    root = pathlib.Path(tempfile.mkdtemp(prefix="eko-verif-sub-"))
+    root = pathlib.Path(tempfile.mkdtemp(prefix="verif-eko-sub-"))
     tempfile.tempdir = str(root)
     res = {"err": "", "members": []}
     try:
